@@ -46,6 +46,15 @@ var c04Carriers = []carrier{
 	}},
 	{"font-hidden", "A", func(s string) string { return "<font hidden>" + s + "</font>" }},
 	{"font-dn", "A", func(s string) string { return "<font color=\"red\" style=\"display:none\">" + s + "</font>" }},
+	{"figure-hidden", "A", func(s string) string {
+		return "<figure hidden><img src=\"http://example.com/img/hf.jpg\" width=\"400\" height=\"300\"><figcaption>" + s + "</figcaption></figure>"
+	}},
+	{"figure-dn", "A", func(s string) string {
+		return "<figure style=\"display:none\"><img src=\"http://example.com/img/hf2.jpg\" width=\"400\" height=\"300\"><figcaption>" + s + " <a href=\"http://example.com/l/y\">" + s + "b</a></figcaption></figure>"
+	}},
+	{"tweet-hidden", "A", func(s string) string {
+		return "<blockquote class=\"twitter-tweet\" aria-hidden=\"true\"><p>" + s + "</p><a href=\"https://twitter.com/x/status/99\">" + s + "b</a></blockquote>"
+	}},
 	{"form", "B", func(s string) string { return "<form action=\"/x\">" + s + "</form>" }},
 	{"input", "B", func(s string) string { return "<input type=\"text\" value=\"" + s + "\">" }},
 	{"button", "B", func(s string) string { return "<button>" + s + "</button>" }},
@@ -75,7 +84,9 @@ func c04Doc(place [][2]int) string {
 		fill[c04Slots[pl[1]]] += " " + c04Carriers[pl[0]].gen(sec) + " "
 	}
 	pc := func() string { return "<p>" + t.W(21) + "</p>" }
-	img := func() string { return "<img src=\"http://example.com/img/" + t.U() + ".jpg\" width=\"400\" height=\"300\">" }
+	img := func() string {
+		return "<img src=\"http://example.com/img/" + t.U() + ".jpg\" width=\"400\" height=\"300\">"
+	}
 	var sb strings.Builder
 	sb.WriteString("<html><head><title>" + ora.DefaultTitle + "</title>" + fill["head"] + "</head><body>")
 	sb.WriteString(fill["top"])
@@ -361,7 +372,7 @@ func init() {
 		ID:        "C04",
 		DesignRef: "§5 C04",
 		Rule: "fixed host skeleton (article with paragraph, list, layout table, data table, three figures, twitter embed) with 14 slots {top, between paragraphs, inside paragraph, li, layout cell, data cell, caption, caption with link, directly in figure, twitter embed, head, a caption holding only the carriers, inside picture, inside video}; " +
-			"every multiset of <= 2 (quick) / <= 3 (thorough) (carrier, slot) placements over 37 carriers (21 hidden/non-rendered incl. hidden elements that also carry a style shared with a visible control, 10 non-reading, 4 visible controls, 2 observe-only CSS spellings), each holding a unique secret token. " +
+			"every multiset of <= 2 (quick) / <= 3 (thorough) (carrier, slot) placements over 40 carriers (24 hidden/non-rendered incl. hidden elements that also carry a style shared with a visible control, 10 non-reading, 4 visible controls, 2 observe-only CSS spellings), each holding a unique secret token. " +
 			"Oracle: secrets whose holder (judged on the parsed tree) is script/style/head/comment/hidden never occur in Text nor in result.Node outside embed placeholders; secrets in form controls/noscript/svg/object/applet/unrecognised iframe never occur unless nested in a retained data table or figure. Non-trivial = >= 1 secret and >= 100 words retained.",
 		Enumerate: c04Enumerate,
 		Check:     c04Check,
